@@ -157,7 +157,12 @@ TraceNext ==
 InvC01 == hist.q => C01_Excused
 InvC01Plain == hist.q => C01_Plain
 InvC02 == hist.q => C02_Excused
+InvC03 == C03_OnlyMembers
+\* a client without an operational MLS group (never joined, pending, evicted) neither reads nor sends
+ActC03 == [][\A c \in Clients : (R.op \in {"Deliver", "Send"} /\ R.c = c /\ cl[c][R.g].mls # "ok")
+                                  => (R.res \notin {"App", "Ok"} /\ msgs'[c] = msgs[c])]_tvars
 InvC08 == C08_Mirror
+InvC18 == C18_Pointer
 \* action properties on the real trace
 ActC02 == [][C02_ContentImmutable \/ R.op = "Reset"]_tvars
 ObsSame(c) == ObsOf(c)' = ObsOf(c)
